@@ -19,7 +19,8 @@ RULE = ("seeded histories of 1..60 operations (add present/absent, remove by val
         "elements (edge tuples rebuilt as fresh equal objects, ints, strings, mixed); draw decisions under "
         "uniform/min/max/sticky/mix policies; the harness's own observation schedule is part of the scenario (model comparison incl. "
         "iteration after every operation / iteration only where the history iterates / no probe at all except where the history observes "
-        "and at the end); a run is non-trivial when it mutated the set at least twice; "
+        "and at the end); 30% of the histories interleave operations on a SECOND live set (sometimes a third constructed mid-history), each "
+        "compared with its own model; a run is non-trivial when it mutated the set at least twice; "
         "distinct = distinct execution digests (operations, results and RNG decisions); one history per invocation grows past "
         "2^16 or 2^17 members and shrinks back through the power of two")
 ASSUMPTIONS = ["reference model is Python's built-in set", "elements are hashable with value equality",
